@@ -17,7 +17,7 @@ CHECKS = {
           "plus who-may-touch slot payload/reset/tickets, the version constants, the compensating batch waiting on every slot of its range, and a "
           "batch split at the ring end continuing only after its first piece was handled completely. These are necessary conditions for 'consumer sees "
           "every producer write' and 'exclusive access'; weakened orders, dropped fences, hoisted stores and ignored CAS results are "
-          "invisible to the x86 test-suite but are local shape changes seen on every path. FIFO/multiset/try_-failure clauses are not decided. Also: a change of the ring geometry (reserve_and_clear writing _slot_bits) re-bases both ticket counters on every path (R11).",
+          "invisible to the x86 test-suite but are local shape changes seen on every path. FIFO/multiset/try_-failure clauses are not decided. Also: a change of the ring geometry (reserve_and_clear writing _slot_bits) re-bases both ticket counters on every path (R11). Also: versions are 16 bits wide wherever they are produced or compared (R6d).",
   "note": "Trusted: clang 14 CFG of the host preprocessor branch; C++ memory-model reasoning that acquire-observation + release-advance on "
           "one word is the publication protocol; client callbacks opaque.",
   "technique": "static analysis: path/dominance rules over inlined CFG facts of template instantiations (custom libTooling extractor)"},
@@ -212,7 +212,7 @@ CHECKS = {
           "reserved from the input is bounded by the bytes present; container loops end on GetDirectBufferPointer (BytesUntilLimit is -1 "
           "without a limit: finding F6, replayed, fixed upstream-style and now guarded by R5/R7); smart pointers create the pointee only "
           "on non-empty input. These are universally quantified over types and presentations the tests sample with a few literals. "
-          "Round-trip value equality, byte-exact protobuf interoperability and the behaviour on each malformed input are not decided. Also: SERIALIZED_SIZE_CACHED is monotone along nesting - a writer that calls a cached-size writer declares the flag (R9d).",
+          "Round-trip value equality, byte-exact protobuf interoperability and the behaviour on each malformed input are not decided. Also: SERIALIZED_SIZE_CACHED is monotone along nesting - a writer that calls a cached-size writer declares the flag (R9d). Also: a trait declaring SERIALIZED_SIZE_COMPLEXITY_TRIVIAL has a size function that neither branches on the value nor calls a non-TRIVIAL trait (R10; finding F11, fixed).",
   "note": "Trusted: clang 14 CFG and template instantiation; protobuf's CodedInputStream/CodedOutputStream contracts (ReadVarint32 consumes a "
           "whole varint; BytesUntilLimit() == -1 without limit); the driver's instantiation set stands for 'all supported types' "
           "(protobuf MessageLite delegation is a one-line forward and not instantiated).",
